@@ -344,26 +344,38 @@ def run_harness(fn, name=None, cfg=None, solver_timeout_ms=10000, max_paths=2000
                     ob.inputs = {"__error__": repr(e)}
             else:
                 ob.status, ob.solver = "unknown", "z3:" + s.reason_unknown()
-                # second attempt: model-based quantifier instantiation (finds counter-models / proofs
-                # the E-matching-only configuration cannot)
-                try:
-                    s2 = z3.SimpleSolver()
-                    s2.set("timeout", min(solver_timeout_ms, 5000))
-                    s2.set("smt.mbqi", True)
-                    for f in ctx.pc:
-                        s2.add(f)
-                    s2.add(z3.Not(goal))
-                    r2 = s2.check()
-                    if r2 == z3.unsat:
-                        ob.status, ob.solver = "proved", "z3-mbqi"
-                    elif r2 == z3.sat:
-                        ob.status, ob.solver = "refuted", "z3-mbqi"
-                        try:
-                            ob.inputs = extract_inputs(s2.model(), ctx.inputs, ctx.pc + [z3.Not(goal)])
-                        except Exception as e:  # noqa
-                            ob.inputs = {"__error__": repr(e)}
-                except Exception:
-                    pass
+                if os.environ.get("PYVC_DUMP_UNKNOWN"):
+                    try:
+                        with open(os.path.join(os.environ["PYVC_DUMP_UNKNOWN"], "%s-%d-%d.smt2" % (name, res.paths, len(res.obligations))), "w") as fdump:
+                            fdump.write(s.to_smt2())
+                    except Exception:
+                        pass
+                # portfolio of fresh solver configurations on the same formulas (the incremental context's state
+                # depends on the non-deterministic pruning history; fresh contexts are reproducible, and the
+                # configurations differ in which quantified obligations they decide)
+                portfolio = [("z3-default", z3.Solver, False), ("z3-default-mbqi", z3.Solver, True),
+                             ("z3-simple-mbqi", z3.SimpleSolver, True), ("z3-all", lambda: z3.SolverFor("ALL"), False)]
+                for pname, mk, mbqi in portfolio:
+                    try:
+                        s2 = mk()
+                        s2.set("timeout", min(solver_timeout_ms, 5000))
+                        s2.set("smt.mbqi", mbqi)
+                        for f in ctx.pc:
+                            s2.add(f)
+                        s2.add(z3.Not(goal))
+                        r2 = s2.check()
+                        if r2 == z3.unsat:
+                            ob.status, ob.solver = "proved", pname
+                            break
+                        if r2 == z3.sat:
+                            ob.status, ob.solver = "refuted", pname
+                            try:
+                                ob.inputs = extract_inputs(s2.model(), ctx.inputs, ctx.pc + [z3.Not(goal)])
+                            except Exception as e:  # noqa
+                                ob.inputs = {"__error__": repr(e)}
+                            break
+                    except Exception:
+                        pass
                 if ob.status == "unknown" and use_cvc5:
                     try:
                         txt = s.to_smt2()
@@ -425,7 +437,7 @@ def run_harness(fn, name=None, cfg=None, solver_timeout_ms=10000, max_paths=2000
         except RecursionError:
             res.errors.append("checker recursion limit")
         except Exception:
-            res.errors.append(traceback.format_exc(limit=12))
+            res.errors.append(traceback.format_exc(limit=-14))
         res.covers.update(ctx.covers)
         if os.environ.get("PYVC_TRACE"):
             print("PATH done: trail=%s pc=%d checks=%d paths=%d killed=%d errs=%d unsup=%d" % (ctx.trail, len(ctx.pc), len(ctx.checks), res.paths, res.killed, len(res.errors), len(res.unsupported)), flush=True)
